@@ -164,6 +164,8 @@ Definition na_marshal (router solicited override : bool) (target : addr) : bytes
 Definition send_ns (c : cfg) (src dst : addr) (target : bytes) (junk : bytes) : res (list bytes) :=
   icmp6_send_packet c src dst (ns_marshal target (host_mac c)) junk.
 
-(* layer_icmp6_ndp.go:291 ICMP6SendNeighborAdvertisement *)
+(* layer_icmp6_ndp.go:291 ICMP6SendNeighborAdvertisement.  srcAddr.MAC is not used (Ethernet source = NIC MAC);
+   targetAddr.MAC is the TLLA option: since fix 1cf31e2 a target MAC that is not 6 bytes is refused (ErrInvalidMAC) *)
 Definition send_na (c : cfg) (src dst target : addr) (junk : bytes) : res (list bytes) :=
+  if negb (Nat.eqb (List.length (a_mac target)) 6) then Ok [] else
   icmp6_send_packet c src dst (na_marshal false false true target) junk.
